@@ -1743,3 +1743,38 @@ def r2_12(rep):
     cg = rep.need(prog.impl_fn("codegen::CodeGenerator", "ir::comp::CompInfo", "codegen"), "<CompInfo as CodeGenerator>::codegen")
     order = [(c["_i"], c["name"]) for c in cg.calls(lambda n: n["k"] == "MCall" and n.get("name") in ("add_tail_padding", "pad_struct"))]
     rep.note("order", [n for _, n in sorted(order)])
+
+
+@RULES.rule("R2.13", "a function pointer that cannot be spelled is replaced by a blob of the POINTER's layout", floor=1)
+def r2_13(rep):
+    """A function pointer is written as its function type (`Option<unsafe extern "C" fn(..)>`).  When that type cannot be written
+    (its ABI is not available for the target), the opaque fallback has to be taken for the pointer, whose layout is a pointer's.
+    `to_rust_ty_or_opaque` on the pointee gives the blob of the function TYPE instead (`[u32; 0]`), and every struct holding such a
+    pointer fails its size assertion.  In the pointer arm of `Type::try_to_rust_ty`, what is returned for a function pointee comes
+    from the fallible conversion (`try_to_rust_ty(..)?`)."""
+    prog = rep.prog
+    b = rep.need(prog.impl_fn("codegen::TryToRustTy", "ir::ty::Type", "try_to_rust_ty"), "<Type as TryToRustTy>::try_to_rust_ty")
+    # exits of the pointer arm that are guarded by `is_function()`
+    n = 0
+    for node in b.walk():
+        is_exit = node["k"] == "Ret" or (node["k"] == "Call" and (node.get("ctor_of") or "").endswith("Ok") and
+                                         b.parent[node["_i"]] is not None and b.parent[node["_i"]]["k"] in ("Block", "If"))
+        if not is_exit:
+            continue
+        gs = b.guards(node, nested=True)
+        in_ptr_arm = any(kind == "arm" and any(v.endswith(("TypeKind::Pointer", "TypeKind::Reference")) for v in pat_variants_(g[0]["arms"][g[1]]["pat"]))
+                         for pol, kind, g in gs)
+        only_fn = [g for pol, kind, g in gs if kind == "cond" and pol and "is_function" in b.canon(g, 6) and "is_objc" not in b.canon(g, 6) and "||" not in b.canon(g, 6)]
+        if not in_ptr_arm or not only_fn:
+            continue
+        n += 1
+        val = node.get("e") if node["k"] == "Ret" else node
+        src = b.canon(val, 10)
+        for x in b.walk(val):
+            if x["k"] == "Local" and b.local_init(x["id"]) is not None:
+                src += " " + b.canon(b.local_init(x["id"]), 10)
+        fallible = "TryToRustTy>::try_to_rust_ty(" in src and "to_rust_ty_or_opaque" not in src
+        rep.check(fallible, "fn-pointer-fallback-is-pointer-sized", "the pointee is converted fallibly; a failure makes the pointer itself opaque" if fallible else
+                  "the value returned for a function pointee comes from `to_rust_ty_or_opaque`: an unspellable function type yields a blob "
+                  "of the function type's layout where a pointer is needed", b.loc(node))
+    rep.need(n >= 1, "the exit of the pointer arm for function pointees")
